@@ -1,6 +1,7 @@
 /- C02 — helper lemmas: normalizeTop, dict, SimpleDMRS token round trip. -/
 import Verif.C02.Model
 import Verif.Common.CodecLemmas
+import Verif.Common.SemLemmas
 
 namespace Verif.C02
 open Verif.Codec Verif.Py
@@ -806,4 +807,86 @@ theorem ofXml_toXml (o : Opts) (d : DMRS) (hwf : d.WF) (hx : ExpressibleX d) (hp
   cases ol <;> cases htop : d.top <;> cases hidx : d.index <;> cases hs : d.surface <;> cases hi : d.identifier <;>
     simp only [htop, hidx, Option.map] at ht hi' <;>
     simp (config := { decide := true }) [optAttr, dget, S, ht, hi', decLnkX, pInt_intStr, hm1, hmk, viewX, htop, hidx, hs, hi]
+/-! ### DMRS-PENMAN: the renumbering -/
+
+theorem top_mem_mainComponent (d : DMRS) (t : Int) (ht : d.top = some t) : t ∈ mainComponent d := by
+  unfold mainComponent
+  cases hn : d.nodes with
+  | nil => simp [ht]
+  | cons n ns =>
+    simp only [ht]
+    exact (Verif.Sem.bfs_closed _ t).1
+
+/-- the renumbering is injective on the kept identifiers -/
+theorem renId_injOn (d : DMRS) (a b : Int)
+    (ha : a ∈ (pOrder d).map (·.id)) (hb : b ∈ (pOrder d).map (·.id)) (h : renId d a = renId d b) : a = b := by
+  unfold renId at h
+  have h' : ((pOrder d).map (·.id)).idxOf a = ((pOrder d).map (·.id)).idxOf b := by omega
+  have la := List.idxOf_lt_length_iff.mpr ha
+  have lb := List.idxOf_lt_length_iff.mpr hb
+  have ea := List.getElem_idxOf la
+  have eb := List.getElem_idxOf lb
+  rw [← ea, ← eb]
+  simp [h']
+
+/-- … onto `10000 … 10000 + k - 1` where `k` is the number of kept nodes -/
+theorem renId_range (d : DMRS) (a : Int) (ha : a ∈ (pOrder d).map (·.id)) :
+    FIRST_NODE_ID ≤ renId d a ∧ renId d a < FIRST_NODE_ID + ((pOrder d).length : Int) := by
+  have la := List.idxOf_lt_length_iff.mpr ha
+  simp only [List.length_map] at la
+  unfold renId
+  constructor <;> omega
+
+/-- in order of first appearance: the `i`-th kept node gets `10000 + i` -/
+theorem renId_getElem (d : DMRS) (hnd : ((pOrder d).map (·.id)).Nodup) (i : Nat) (hi : i < (pOrder d).length) :
+    renId d ((pOrder d)[i]).id = FIRST_NODE_ID + (i : Int) := by
+  unfold renId
+  have h := List.Nodup.idxOf_getElem hnd i (by simpa using hi)
+  simp only [List.getElem_map] at h
+  rw [h]
+
+/-- the top node is the first kept node, so it becomes `10000` -/
+theorem renId_top (d : DMRS) (t : Int) (ht : d.top = some t) (hmem : t ∈ d.nodes.map (·.id)) :
+    renId d t = FIRST_NODE_ID := by
+  obtain ⟨n, hn, hid⟩ := List.mem_map.mp hmem
+  have hA : n ∈ d.nodes.filter (fun n => d.top = some n.id) := by
+    simp [List.mem_filter, hn, ht, hid]
+  cases hAe : d.nodes.filter (fun n => d.top = some n.id) with
+  | nil => rw [hAe] at hA; cases hA
+  | cons a A =>
+    have ha : a ∈ d.nodes.filter (fun n => d.top = some n.id) := by rw [hAe]; simp
+    have haid : a.id = t := by
+      have := (List.mem_filter.mp ha).2
+      simp [ht] at this
+      exact this.symm
+    have hcomp : a.id ∈ mainComponent d := by rw [haid]; exact top_mem_mainComponent d t ht
+    have hp : ∃ r, pOrder d = a :: r := by
+      unfold pOrder
+      rw [hAe]
+      simp only [List.cons_append, List.filter_cons, hcomp, decide_true, if_true]
+      exact ⟨_, rfl⟩
+    obtain ⟨r, hr⟩ := hp
+    unfold renId
+    rw [hr]
+    simp [haid]
+
+theorem length_filter_split {α : Type} (p : α → Bool) (l : List α) :
+    (l.filter p).length + (l.filter (fun x => !p x)).length = l.length := by
+  induction l with
+  | nil => rfl
+  | cons a l ih =>
+    cases h : p a <;> simp [h] <;> omega
+
+/-- "for graphs connected from the top": nothing is dropped -/
+theorem pOrder_length_of_connected (d : DMRS) (hc : ∀ n ∈ d.nodes, n.id ∈ mainComponent d) :
+    (pOrder d).length = d.nodes.length := by
+  unfold pOrder
+  rw [List.filter_eq_self.mpr]
+  · rw [List.length_append]
+    have := length_filter_split (fun n => decide (d.top = some n.id)) d.nodes
+    simpa using this
+  · intro n hn
+    rcases List.mem_append.mp hn with h | h
+    · simpa using hc n (List.mem_filter.mp h).1
+    · simpa using hc n (List.mem_filter.mp h).1
 end Verif.C02
